@@ -261,6 +261,13 @@ def F17_show_before_deal():
         return f'actions {hh.actions}: replay raises {e}'
 
 
+def F18_late_post_tie():
+    """C13: a late-seated player's post must not change who opens when no blind could be posted."""
+    s = NoLimitTexasHoldem.create_state(ALL, False, 1, (2, 4, 0, 0, -4), 4, (1, 1, 50, 50, 50), 5)
+    if s.actor_index != 2:
+        return f'blinds (2, 4, 0, 0, -4), blind seats all-in for the ante: bets {s.bets}, first to act seat {s.actor_index}, expected seat 2'
+
+
 DEMOS = {k: v for k, v in globals().items() if k.startswith('F') and callable(v) and k[1:2].isdigit()}
 
 if __name__ == '__main__':
